@@ -131,8 +131,6 @@ def __i{name}__(self, other):
             self._i{name}_scalar(other)
         elif ndim == 1:
             self._i{name}_array(other)
-        elif ndim == 2:
-            for i in other: self._i{name}_array(other)
         else:
             raise ValueError('shape mismatch between arrays')
     return self
